@@ -260,6 +260,8 @@ def check_typing(ctx, tu):
                         work.append((c, chain + [(x, c)]))
                 if x.get('kind') != 'BinaryOperator' or x.get('opcode') not in ('*', '+'):
                     continue
+                if chain and x.get('opcode') == '+':
+                    continue      # a sum inside a vec_t helper adds coordinates (where + shift), not index terms; products count
                 ks = tu.kids(x)
                 if len(ks) != 2:
                     continue
@@ -312,6 +314,16 @@ class IR:
             self.ctx.undecided(rule, inst, 'outside the decided IR fragment: %s' % e, file)
         self.cache[k] = s
         return s
+
+    def get_opts(self, tn):
+        """options for summarising ActualArray3D<T>::get: the object *a is an ActualArray3D<T>, so the virtual calls it makes
+        on itself (numElements(), size()) resolve through that class's vtable (emitted by the driver's explicit instantiation)"""
+        vt = '_ZTVN8rkcommon7array3D13ActualArray3DI%sEE' % {'float': 'f', 'double': 'd'}[tn]
+        if vt in self.mod.globals and self.mod.globals[vt][0]:
+            self.ctx.assume('ActualArray3D::get is analysed for objects whose dynamic type is ActualArray3D<T> itself '
+                            '(virtual calls on *this resolve through its own vtable)')
+            return dict(pointers={'a[0]': (vt, 16)})
+        return {}
 
 
 def decide_equal(ctx, R, inst, file, key, got, want, okmsg, what):
@@ -461,7 +473,7 @@ def check_formulas(ctx, ir):
     # ---- the address computed by ActualArray3D::get
     for name, tyname, stride in (('K_get', 'f32', 4), ('K_get_d', 'f64', 8)):
         inst = 'ActualArray3D<%s>::get address' % ('float' if stride == 4 else 'double')
-        s = ir.summary(R, inst, name, A3D)
+        s = ir.summary(R, inst, name, A3D, **ir.get_opts('float' if stride == 4 else 'double'))
         if s is None or adims is None:
             continue
         n += 1
@@ -565,6 +577,104 @@ def early_out(tu, st, lo, hi):
     return True
 
 
+def early_out_axes(tu, st, lo, hi):
+    """components c for which the (accepted) early-out returns whenever upper.c <= lower.c"""
+    inner = [x for x in st.get('inner', []) if isinstance(x, dict) and x.get('kind')]
+    c = nf(tu, inner[0])
+    L, U = ('ref', 'ParmVarDecl', lo), ('ref', 'ParmVarDecl', hi)
+    parts = list(c[2]) if c[0] == 'op' and c[1] == '||' else ([c] if not (c[0] == 'op' and c[1] == '&&') else [])
+    out = set()
+    for x in parts:
+        x = drop_casts(x)
+        if x[0] == 'op' and len(x[2]) == 2:
+            a, b = x[2]
+            rel = x[1]
+            if rel == '>=':
+                a, b, rel = b, a, '<='
+            if rel == '<=' and a[0] == 'mem' and b[0] == 'mem' and a[1] == U and b[1] == L and a[2] == b[2]:
+                out.add(a[2])
+    return out
+
+
+def flat_loop(tu, stmts, lo, hi, fun):
+    """None: not the flattened form.  True: `for (i = 0; i < product of the extents; ++i) functor(lower + coordsOf(i, upper -
+    lower))`.  (kind, message): the flattened form with a recognisable mistake."""
+    L, U = ('ref', 'ParmVarDecl', lo), ('ref', 'ParmVarDecl', hi)
+    env = {}
+    loop = None
+    for st in stmts:
+        if st.get('kind') == 'DeclStmt':
+            for d in tu.kids(st):
+                if d.get('kind') == 'VarDecl' and tu.kids(d):
+                    env[d['id']] = nf(tu, tu.kids(d)[-1], env)
+                else:
+                    return None
+        elif st.get('kind') == 'ForStmt' and loop is None and st is stmts[-1]:
+            loop = st
+        else:
+            return None
+    if loop is None:
+        return None
+    parts = for_parts(tu, loop)
+    if parts is None or parts[1] is not None or any(parts[i] is None for i in (0, 2, 3, 4)):
+        return None
+    init, _, cond, inc, body = parts
+    vds = [d for d in tu.kids(init) if d.get('kind') == 'VarDecl'] if init.get('kind') == 'DeclStmt' else []
+    if len(vds) != 1 or not tu.kids(vds[0]):
+        return None
+    v = vds[0]
+    vref = ('ref', 'VarDecl', v.get('name'))
+    if drop_casts(nf(tu, tu.kids(v)[-1], env)) != ('int', 0):
+        return None
+    c = drop_casts(nf(tu, cond, env))
+    if not (c[0] == 'op' and c[1] in ('<', '>', '!=') and len(c[2]) == 2):
+        return None
+    a, b = c[2]
+    if c[1] == '>':
+        a, b = b, a
+    if c[1] == '!=' and b == vref:
+        a, b = b, a
+    if a != vref:
+        return None
+    size = ('op', '-', (U, L))
+    ext = lambda k: (('mem', size, k), ('op', '-', (('mem', U, k), ('mem', L, k))))
+    trip_ok = False
+    if b[0] == 'op' and b[1] == '*' and len(b[2]) == 3:
+        left = list(b[2])
+        for k in 'xyz':
+            hit = [t for t in left if t in ext(k)]
+            if hit:
+                left.remove(hit[0])
+        trip_ok = not left
+    elif b[0] == 'call' and strip_targs(b[1]) in PRODUCTS + ('rkcommon::array3D::longProduct',):
+        arg = b[3][0] if b[3] else b[2]
+        trip_ok = arg == size
+    if not trip_ok:
+        return None
+    ic = nf(tu, inc, env)
+    if not ((ic[0] == 'un' and ic[1] == '++' and ic[2] == vref) or ic == ('op', '+=', (vref, ('int', 1)))):
+        return None
+    node = body
+    while node is not None and node.get('kind') == 'CompoundStmt' and len(tu.kids(node)) == 1:
+        node = tu.kids(node)[0]
+    call = drop_casts(nf(tu, node, env))
+    arg = None
+    if call[0] == 'op' and call[1] == '()' and len(call[2]) == 2 and call[2][0] == ('ref', 'ParmVarDecl', fun):
+        arg = call[2][1]
+    elif call[0] == 'call' and call[2] == ('ref', 'ParmVarDecl', fun) and call[3]:
+        arg = call[3][0]
+    if arg is None:
+        return None
+    co = ('call', 'rkcommon::array3D::coordsOf', None, (vref, size))
+    if arg == op_nf('+', [L, co]):
+        return True
+    if arg == co:
+        return ('offset', 'flattened loop passes coordsOf(i, upper - lower) to the functor without adding lower')
+    if arg == op_nf('+', [U, co]):
+        return ('offset', 'flattened loop offsets the coordinates by upper instead of lower')
+    return None
+
+
 def check_for_each(ctx, tu):
     R = 'R-C17-4'
     n = 0
@@ -581,6 +691,7 @@ def check_for_each(ctx, tu):
             level = 0
             loopvars = {}
             # leading early-outs `if (C) return;` are fine when C implies that the region is empty
+            covered = set()
             while len(cur) > 1 and cur[0].get('kind') == 'IfStmt':
                 verdict = early_out(tu, cur[0], lo, hi)
                 if verdict is None:
@@ -588,7 +699,31 @@ def check_for_each(ctx, tu):
                     break
                 if verdict is not True:
                     problems.append(('early-out', verdict))
+                else:
+                    covered |= early_out_axes(tu, cur[0], lo, hi)
                 cur = cur[1:]
+            flat = flat_loop(tu, cur, lo, hi, fun) if not und else None
+            if flat is not None:
+                n_flat = True
+                if flat is not True:
+                    problems.append(flat)
+                elif covered >= {'x', 'y', 'z'}:
+                    ctx.assume('R-C17-4: a flattened for_each is read with a cell count below 2^63')
+                else:
+                    missing = ', '.join(sorted({'x', 'y', 'z'} - covered))
+                    problems.append(('empty-region', 'single loop over i < (ux-lx)*(uy-ly)*(uz-lz): the region is empty as soon as one extent '
+                                     'is <= 0, but the product of the extents is positive when exactly two of them are negative (and nothing '
+                                     'returns early for an empty extent in %s), so an inverted, empty region is visited with coordinates '
+                                     'outside it' % missing))
+                seen = set()
+                for kind, why in problems:
+                    if kind not in seen:
+                        seen.add(kind)
+                        ctx.violation(R, inst, why, tu.fn_loc(f), key=key + kind)
+                if not problems:
+                    ctx.ok(R, inst, 'flattened loop over the cell count with functor(lower + coordsOf(i, upper - lower)), empty extents '
+                           'return early on every axis', tu.fn_loc(f))
+                continue
             node = cur[0] if len(cur) == 1 else None
             if node is None and not und:
                 und.append('body is not a single loop nest')
@@ -765,6 +900,52 @@ def check_iterators(ctx, ir):
     R = 'R-C17-4'
     n = 0
     key = lambda fn, d: '%s|%s|%s|%s' % (R, SEQ, fn, d)
+    cache = {}
+    dimoffs2, dimoffs3 = (0, 8), (0, 8, 16)
+
+    def coherence(nd, cur, s, inst, which):
+        """cache == reshape(current_index) after a mutator, given that it held before"""
+        if nd not in cache:
+            return
+        outs, sigma, reshape_at = cache[nd]
+        c = sym('it[%d]' % cur)
+        try:
+            written = [str(v) for v in outs if str(v) in s.slots()]
+            stale, undec = [], []
+            moved = None
+            total = sp.Mul(*[sym('it[%d]' % o) for o in (dimoffs2 if nd == 2 else dimoffs3)])
+            for p in s.paths:
+                ps = s.path_slots(p)
+                newcur = I.scalar_term(ps['it[%d]' % cur]) if ('it[%d]' % cur) in ps else c
+                if sp.expand(newcur - c) != 0:
+                    moved = sp.expand(newcur - c)
+                want = reshape_at(newcur)
+                for v, w in zip(outs, want):
+                    slot = str(v)
+                    if slot in ps:
+                        got = I.scalar_term(ps[slot]).xreplace(sigma)
+                        for g2, t2 in I.cases(got, p.guard):
+                            if not I.equal(t2, w) and not I.equal_under(list(g2), t2, w):
+                                undec.append('%s becomes %s; cannot relate it to reshape(current_index) = %s' % (slot, t2, w))
+                    elif sp.expand(newcur - c) != 0:
+                        if slot not in written:
+                            stale.append(slot)
+                        elif I.consistent(list(p.guard) + [I.ilit('ne', total, 0)]):
+                            undec.append('%s is not updated on the path %s' % (slot, ' & '.join(map(str, p.guard))))
+            stale = sorted(set(stale))
+            if stale:
+                ctx.violation(R, inst, '%s moves current_index (by %s) but leaves the cached coordinates %s, which operator* returns, '
+                              'unchanged: *it after %s is still the previous coordinate' % (which, moved, ', '.join(stale),
+                                                                                        'it++' if 'int' in which else '++it'),
+                              SEQ, key=key('multidim_index_iterator::operator++', 'stale-cache'))
+            elif undec:
+                ctx.undecided(R, inst, 'coordinate cache: ' + undec[0], SEQ)
+            else:
+                ctx.ok(R, inst + ' keeps the coordinate cache', 'cache == reshape(current_index) is preserved (paths with an empty '
+                       'extent excepted)', SEQ)
+        except (Undecided, KeyError) as e:
+            ctx.undecided(R, inst, 'coordinate cache: %s' % e, SEQ)
+
     for nd, dimoffs, cur in ((2, (0, 8), 16), (3, (0, 8, 16), 24)):
         dims = S('dims', dimoffs)
         total = sp.Mul(*dims)
@@ -801,7 +982,17 @@ def check_iterators(ctx, ir):
                     slot = 'out[%d]' % o
                     if not I.equal(s.value(slot), r.value(slot).xreplace(m)):
                         bad = (slot, s.value(slot), r.value(slot).xreplace(m))
-                if bad:
+                own = {sym('it[%d]' % o) for o in tuple(dimoffs) + (cur,)}
+                outs = [s.value('out[%d]' % o) for o in dimoffs]
+                if bad and all(v.is_Symbol and str(v).startswith('it[') and v not in own for v in outs) and len(set(outs)) == len(outs):
+                    # operator* returns stored members: a cache of the coordinates.  That is right exactly if every mutator keeps
+                    # cache == reshape(current_index); the obligations are checked with each mutator below.
+                    cache[nd] = (outs, {v: r.value('out[%d]' % o).xreplace(m) for v, o in zip(outs, dimoffs)},
+                                 lambda newcur, _r=r, _m=m: [_r.value('out[%d]' % o).xreplace(_m).xreplace({sym('it[%d]' % cur): newcur})
+                                                             for o in dimoffs])
+                    ctx.ok(R, inst, 'returns the cached coordinates %s; coherence with reshape(current_index) is an obligation of every '
+                           'mutator (checked for ++)' % ', '.join(map(str, outs)), SEQ)
+                elif bad:
                     ctx.violation(R, inst, 'component %s is %s, but reshape(current) gives %s' % bad, SEQ,
                                   key=key('multidim_index_iterator::operator*', 'reshape'))
                 else:
@@ -830,6 +1021,7 @@ def check_iterators(ctx, ir):
                     ctx.ok(R, inst, 'position + 1, returned iterator at the new position over the same extents', SEQ)
             except (Undecided, KeyError) as e:
                 ctx.undecided(R, inst, 'pre-increment not written on every path or slot missing: %s' % e, SEQ)
+            coherence(nd, cur, s, inst, 'operator++()')
         inst = 'multidim_index_iterator<%d>::operator++(int)' % nd
         s = ir.summary(R, inst, 'K_postinc%d' % nd, SEQ)
         if s is not None:
@@ -844,6 +1036,7 @@ def check_iterators(ctx, ir):
                 ctx.violation(R, inst, 'post-increment does not update the position (%s)' % e, SEQ,
                               key=key('multidim_index_iterator::operator++', 'post')) if isinstance(e, KeyError) else \
                     ctx.undecided(R, inst, str(e), SEQ)
+            coherence(nd, cur, s, inst, 'operator++(int)')
     # != / == decide on the position when the extents agree
     for name, positive in (('K_eq3', True), ('K_ne3', False)):
         inst = 'multidim_index_iterator<3>::operator%s' % ('==' if positive else '!=')
@@ -1068,13 +1261,31 @@ def check_adaptors(ctx, tu):
     ctx.floor(R, n, 14, 'get/size/numElements of 4 adaptors + ActualArray3D::set (x element types)')
 
 
+def simple_guard(lits):
+    """every literal compares operands that are constants or linear in a single input (x, dx - 1, 0): for such guards the
+    order theory of irnorm.consistent is complete, so a guard it accepts is satisfiable"""
+    if not I.in_order_vocabulary(lits):
+        return False
+    for l in lits:
+        pp = I._lit_parts(l)
+        if pp is None:
+            continue
+        for x in (pp[1], pp[2]):
+            fs = x.free_symbols
+            if len(fs) > 1 or I.all_atoms(x):
+                return False
+            if fs and sp.Poly(x, *fs).total_degree() > 1:
+                return False
+    return True
+
+
 def check_get_clamps(ctx, ir, adims):
     """every path and select case of the address computed by get() against the per-axis definition
     clamp(c, 0, dims.c - 1) for all three axes at once (27 region combinations)"""
     R = 'R-C17-5'
     for name, tyname, stride, tn in (('K_get', 'f32', 4, 'float'), ('K_get_d', 'f64', 8, 'double')):
         inst = 'ActualArray3D<%s>::get clamping' % tn
-        s = ir.summary(R, inst, name, A3D)
+        s = ir.summary(R, inst, name, A3D, **ir.get_opts(tn))
         if s is None or adims is None:
             continue
         try:
@@ -1097,9 +1308,34 @@ def check_get_clamps(ctx, ir, adims):
             if I.opaque_atoms(ta):
                 ctx.undecided(R, inst, 'address %s contains an unproved narrowing' % ta, A3D)
                 continue
-            if not I.in_order_vocabulary(list(ga) + list(gb)):
-                ctx.undecided(R, inst, 'a path condition of get() is not a plain coordinate comparison (%s); cannot tell whether the '
-                              'mismatching case is reachable' % ' & '.join(map(str, ga)), A3D)
+            if not simple_guard(list(ga) + list(gb)):
+                # the mismatching case is only known to be reachable when its guard consists of per-axis comparisons; one other
+                # shape is recognised as wrong: the raw coordinates are used under a range test on the *linear index* alone
+                Lraw, Ncanon = lin(idx, adims), adims[0] * adims[1] * adims[2]
+                dep = [l for l in ga if l.free_symbols & set(idx)]
+                lin_tests = []
+                for l in dep:
+                    pp = I._lit_parts(l)
+                    okl = False
+                    if pp is not None and pp[0] in ('ult', 'ule', 'slt', 'sle'):
+                        for u, v in ((pp[1], pp[2]), (pp[2], pp[1])):
+                            r = sp.cancel(u / Lraw)
+                            if r.is_Rational and r > 0 and sp.expand(v - r * Ncanon) == 0:
+                                okl = True
+                    lin_tests.append(okl)
+                alias = sp.expand(lin([idx[0] + adims[0], idx[1] - 1, idx[2]], adims) - Lraw) == 0
+                if dep and all(lin_tests) and I.equal(ta, stride * Lraw) and alias:
+                    ctx.violation(R, inst, 'on the path where the range test `%s` on the *linear index* succeeds the address is computed '
+                                  'from the unclamped coordinate (byte offset %s): a linear index inside [0, dx*dy*dz) does not mean that '
+                                  'the coordinate is inside the extent - x + dx*(y + dy*z) is the same for (x + dx, y - 1, z) and '
+                                  '(x, y, z), so e.g. x = dx on row y reads cell (0, y+1, z) instead of the clamped cell (dx-1, y, z)'
+                                  % (' & '.join(map(str, dep)), sp.expand(ta)), A3D,
+                                  key='%s|%s|ActualArray3D::get|linear-index-test' % (R, A3D),
+                                  path=['path of get(): %s' % ' & '.join(map(str, ga)), 'offset on that path: %s' % sp.expand(ta),
+                                        'definition (component-wise clamp), case %s: %s' % (' & '.join(map(str, gb)), sp.expand(tb))])
+                else:
+                    ctx.undecided(R, inst, 'a path condition of get() is not a plain per-axis coordinate comparison (%s); cannot tell '
+                                  'whether the mismatching case is reachable' % ' & '.join(map(str, ga)), A3D)
                 continue
             region = []
             G = list(ga) + list(gb) + A
